@@ -113,6 +113,8 @@ func c09Zoo() []zooEntry {
 		{"map-jsonnumber-key", map[json.Number]int{"5": 1}},
 		{"map-stringer-key", map[fmt.Stringer]int{c09Str("abc"): 1}}, {"map-error-key", map[error]int{fmt.Errorf("abc"): 1, nil: 2}}, {"map-stringer-key-empty", map[fmt.Stringer]int{}},
 		{"map-named-iface-key", map[c09Any]int{"abc": 1, 5: 2}}, {"slice-stringer", []fmt.Stringer{c09Str("abc"), nil}}, {"slice-error", []error{fmt.Errorf("abc")}},
+		{"slice-iface-range-then-match", []interface{}{1, nil, int8(5), uint64(math.MaxUint64), "18446744073709551615", float32(1), float64(1e39), "1e39"}},
+		{"array-iface-range-then-match", [4]interface{}{int64(1), uint64(math.MaxUint64), float32(2), "1e39"}},
 		{"list-65", c09Ints(65)}, {"list-64", c09Ints(64)}, {"list-66-typed", c09TypedInts(66)}, {"array-70", [70]int{69: 5}},
 		{"jsonnumber-int", json.Number("5")}, {"jsonnumber-float", json.Number("1.5")}, {"jsonnumber-bad", json.Number("abc")}, {"jsonnumber-huge", json.Number("1e999")}, {"jsonnumber-empty", json.Number("")},
 		{"ptr-jsonnumber", func() *json.Number { n := json.Number("5"); return &n }()},
@@ -120,7 +122,7 @@ func c09Zoo() []zooEntry {
 	}
 }
 
-var c09Lits = []string{"abc", "5", "1.5", "true", "", "1e999", "99999999999999999999", "-1", "(", "0x5", "NaN", "k", "1"}
+var c09Lits = []string{"abc", "5", "1.5", "true", "", "1e999", "99999999999999999999", "-1", "(", "0x5", "NaN", "k", "1", "18446744073709551615", "1e39", "-9223372036854775809"}
 
 // c09Exprs lists the expressions applied to a zoo value reachable as `v`
 // (depth 1), and the ones applied with the value as the datum itself.
